@@ -321,11 +321,17 @@ def rule_sr_table(P):
             want = spec[op]
             if want == "logaddexp":
                 # -inf - -inf is nan: unless numpy's logaddexp is used, both zero short-cuts are part of the definition
-                ids = {_guard_identity(g, c, cname) for k in short for g in k.guards if _guard_identity(g, c, cname)}
+                # value-based (==) guards only: a product with zero is a freshly built Log(-inf), which `is` does not recognise
+                ids = set()
+                for k in short:
+                    for g in k.guards:
+                        gi = _guard_identity(g, c, cname)
+                        if gi and " == " in g[0]:
+                            ids.add(gi)
                 uses_np = any(k.kind == "ctor" and k.value and "logaddexp" in p_str(k.value[0]) for k in general)
                 if not uses_np:
                     okz = ("self", "zero") in ids and ("other", "zero") in ids
-                    r.add(f, f.node, okz, "" if okz else f"{cname}.__add__ has no `== zero` short-cut for both operands: zero + zero evaluates "
+                    r.add(f, f.node, okz, "" if okz else f"{cname}.__add__ has no value-based `== zero` short-cut for both operands: zero + zero (also with a freshly built zero) evaluates "
                           f"-inf - -inf = nan, so the zero is no longer the additive identity at zero", construct=f"{cname}.__add__ zero short-cuts")
                 ok = _check_logaddexp(c, general)
                 for k in general:
